@@ -319,6 +319,10 @@ pub fn run(args: &Args, rec: &mut Recorder) {
             bulk_push_case(rng, rec, k);
             return None;
         }
+        if case % 40 == 26 {
+            cross_file_case(rng, rec, k);
+            return None;
+        }
         if case % 20 == 17 || case % 20 == 3 {
             api_twin_case(&g, rng, rec, k, case / 20, args.thorough);
             return None;
@@ -508,6 +512,8 @@ pub fn run(args: &Args, rec: &mut Recorder) {
     rec.floor("api_built_models", 1);
     rec.floor("bulk_push.group_over_32", 2);
     rec.floor("api_twin_models", 100);
+    rec.floor("cross_file.module_pushed", 3);
+    rec.floor("cross_file.elements_pushed", 3);
     // ... and must have been built through the API (IF_DATA is reached through loading only)
     for e in &g.elements {
         for t in &e.tags {
@@ -579,6 +585,61 @@ fn bulk_push_case(rng: &mut Rng, rec: &mut Recorder, k: usize) {
             &format!("{sig} [loaded interleaved module + {} pushed]", if n_new > 8 { "many" } else { "few" }),
             &detail,
             witness_text("bulk push", &text, &format!("{n_new} new elements of kind {kind} pushed through the API")),
+        );
+    }
+}
+
+/// Elements (or a whole MODULE) that were loaded from one text are moved into the model loaded from
+/// another text with `push`: copying content between files through the API. The combined model is a
+/// model "built and edited through the public API" like any other.
+fn cross_file_case(rng: &mut Rng, rec: &mut Recorder, k: usize) {
+    use std::fmt::Write as _;
+    rec.eval();
+    rec.bump("cross_file_cases");
+    let mk = |prefix: &str, n: usize, lead: usize| {
+        let mut t = String::new();
+        for _ in 0..lead {
+            t.push('\n');
+        }
+        t.push_str("ASAP2_VERSION 1 71\n/begin PROJECT p \"\"\n");
+        let _ = writeln!(t, "/begin MODULE {prefix}mod \"\"");
+        for i in 0..n {
+            let _ = writeln!(t, "/begin MEASUREMENT {prefix}m{i} \"\" UBYTE NO_COMPU_METHOD 0 0 0 255\n/end MEASUREMENT");
+            let _ = writeln!(t, "/begin UNIT {prefix}u{i} \"\" \"x\" DERIVED\n/end UNIT");
+        }
+        t.push_str("/end MODULE\n/end PROJECT\n");
+        t
+    };
+    // the two files have different lengths and line offsets, so uids and line numbers interleave
+    let ta = mk("a_", 1 + rng.below(6) as usize, rng.below(4) as usize);
+    let tb = mk("b_", 1 + rng.below(6) as usize, rng.below(4) as usize);
+    rec.nontrivial(format!("{ta}|{tb}").as_bytes());
+    let (Ok(Ok((mut a, _))), Ok(Ok((b, _)))) = (load_str(&ta, true), load_str(&tb, true)) else {
+        rec.violation("cross-file: generated document is rejected", "", witness_text("cross-file", &ta, &tb));
+        return;
+    };
+    let whole_module = rng.chance(1, 3);
+    if whole_module {
+        rec.bump("cross_file.module_pushed");
+        a.project.module.push(b.project.module[0].clone());
+    } else {
+        rec.bump("cross_file.elements_pushed");
+        for m in b.project.module[0].measurement.iter() {
+            if rng.chance(2, 3) {
+                a.project.module[0].measurement.push(m.clone());
+            }
+        }
+        for u in b.project.module[0].unit.iter() {
+            if rng.coin() {
+                a.project.module[0].unit.push(u.clone());
+            }
+        }
+    }
+    if let Err((sig, detail)) = cycle_check(&a, k, "") {
+        rec.violation(
+            &format!("{sig} [elements loaded from another file pushed into the model]"),
+            &detail,
+            witness_text("cross-file", &ta, &format!("second file: {tb}; {}", if whole_module { "its MODULE pushed" } else { "some of its MEASUREMENTs and UNITs pushed" })),
         );
     }
 }
